@@ -3,9 +3,12 @@
 (* C19 -- trace validation: executions of the real update_file recorded by *)
 (* harness/props/c19.py are matched against the actions of UpdateFile.     *)
 (*                                                                         *)
-(* A trace is                                                              *)
+(* A trace is [runs |-> <<call, ...>>]: one or more consecutive calls made *)
+(* in ONE Python process on the same local path (the repository moves on   *)
+(* or is exchanged in between).  A call is                                 *)
 (*   [in     |-> the input of the call in the vocabulary of UpdateFile     *)
-(*               (hist, h0, local0, fault, nw, flav as a sequence),        *)
+(*               (hist, h0, local0, fault, nw, flav as a sequence, url,    *)
+(*               rep),                                                     *)
 (*    obs    |-> [fs |-> BOOLEAN, net |-> BOOLEAN]  which kinds of steps   *)
 (*               the recorder could observe,                               *)
 (*    events |-> <<[a, i, loc]>> the observed steps in order: a = action   *)
@@ -16,10 +19,14 @@
 (* The specification takes its own steps; a step whose action is of an     *)
 (* observable kind must be the next recorded event (same name, argument,   *)
 (* and the local file as the specification has it), all other steps are    *)
-(* internal.  The trace is accepted when the specification reaches a       *)
-(* terminal state that equals `out` with every event consumed.  With       *)
-(* obs.fs = obs.net = FALSE and no events this is the coarse check of the  *)
-(* verdict observables alone.                                              *)
+(* internal.  A call is explained when the specification reaches a         *)
+(* terminal state that equals `out` with every event consumed; the next    *)
+(* call then starts (NextRun) from the file system the specification has   *)
+(* -- nothing else is carried over, so an execution in which an earlier    *)
+(* call influences a later one otherwise than through the local file is    *)
+(* rejected.  The trace is accepted when its last call is explained.       *)
+(* With obs.fs = obs.net = FALSE and no events this is the coarse check of *)
+(* the verdict observables alone.                                          *)
 (***************************************************************************)
 EXTENDS UpdateFile, IOUtils, TLCExt
 
@@ -29,42 +36,50 @@ Diag   == IOEnv.TRACE_DIAG = "1"
 VARIABLES tid, l
 
 Tr == Traces[tid]
+Rn == Tr.runs[run]
 
 SeqToSet(s) == {s[j] : j \in 1..Len(s)}
 InOf(t) == [hist |-> t.in.hist, h0 |-> t.in.h0, local0 |-> t.in.local0,
             fault |-> [k |-> t.in.fault.k, i |-> t.in.fault.i],
-            nw |-> t.in.nw, flav |-> SeqToSet(t.in.flav)]
+            nw |-> t.in.nw, flav |-> SeqToSet(t.in.flav), url |-> t.in.url, rep |-> t.in.rep]
 
 TInit == /\ tid \in 1..Len(Traces)
          /\ l = 1
-         /\ WellFormedInput(InOf(Traces[tid]))
-         /\ InitVars(InOf(Traces[tid]))
+         /\ WellFormedInput(InOf(Traces[tid].runs[1]))
+         /\ InitVars(InOf(Traces[tid].runs[1]))
 
 FsActs  == {"OpenNew", "WriteNew", "CloseNew", "Rename", "CleanupNew"}
 NetActs == {"FetchIndex", "DownloadPatch", "FullDownload"}
-Observable(a) == \/ Tr.obs.fs /\ a.a \in FsActs /\ ~(a.a = "CleanupNew" /\ a.i = 0)
-                 \/ Tr.obs.net /\ a.a \in NetActs
+Observable(a) == \/ Rn.obs.fs /\ a.a \in FsActs /\ ~(a.a = "CleanupNew" /\ a.i = 0)
+                 \/ Rn.obs.net /\ a.a \in NetActs
 
-TStep == /\ Next
+TStep == /\ RunNext
          /\ LET a == path'[Len(path')] IN
               IF Observable(a)
-              THEN /\ l <= Len(Tr.events)
-                   /\ Tr.events[l].a = a.a
-                   /\ Tr.events[l].i = a.i
-                   /\ (a.a \in FsActs => Tr.events[l].loc = local)
+              THEN /\ l <= Len(Rn.events)
+                   /\ Rn.events[l].a = a.a
+                   /\ Rn.events[l].i = a.i
+                   /\ (a.a \in FsActs => Rn.events[l].loc = local)
                    /\ l' = l + 1
               ELSE l' = l
          /\ UNCHANGED tid
-         /\ (Diag => PrintT(<<"AT", tid, Len(path')>>))
+         /\ (Diag => PrintT(<<"AT", tid, (run - 1) * 1000 + Len(path')>>))
          /\ (pc' \in Terminal =>
-               /\ l' = Len(Tr.events) + 1
-               /\ Tr.out.pc = pc'
-               /\ Tr.out.local = local'
-               /\ Tr.out.dotNew = (IF dotNew' = "absent" THEN "absent" ELSE "present")
-               /\ (pc' = "returned" => Tr.out.ret = ret')
-               /\ PrintT(<<"ACCEPTED", tid>>))
+               /\ l' = Len(Rn.events) + 1
+               /\ Rn.out.pc = pc'
+               /\ Rn.out.local = local'
+               /\ Rn.out.dotNew = (IF dotNew' = "absent" THEN "absent" ELSE "present")
+               /\ (pc' = "returned" => Rn.out.ret = ret')
+               /\ (run = Len(Tr.runs) => PrintT(<<"ACCEPTED", tid>>)))
 
-TSpec == TInit /\ [][TStep]_<<vars, tid, l>>
+\* the next call of the same process: its input is what the trace says, its local file is what
+\* the specification has after the previous call
+TNextRun == /\ pc \in Terminal /\ run < Len(Tr.runs)
+            /\ WellFormedInput(InOf(Tr.runs[run + 1]))
+            /\ NextRun(InOf(Tr.runs[run + 1]))
+            /\ l' = 1 /\ UNCHANGED tid
+
+TSpec == TInit /\ [][TStep \/ TNextRun]_<<vars, tid, l>>
 \* the statement's invariants also hold along every explained execution
 TOldOrNew == AlwaysOldOrNew
 =============================================================================
